@@ -89,6 +89,9 @@ pub struct Common {
     pub known_sids: Vec<u32>,
     /// messages the input tap completed in the most recent handle_input call
     pub last_in: Vec<RefMsg>,
+    /// the peer has announced an acknowledgement window (or the tap lost track): from then on
+    /// any input call may serialize an Acknowledgement
+    pub peer_window_seen: bool,
 }
 
 impl Common {
@@ -110,6 +113,7 @@ impl Common {
             rx_bytes: 0,
             known_sids: Vec::new(),
             last_in: Vec::new(),
+            peer_window_seen: false,
         }
     }
 
@@ -158,14 +162,23 @@ impl Common {
         match self.in_tap.feed(seg) {
             Ok(v) => {
                 let ends = self.in_tap.last_ends.clone();
+                if v.iter().any(|m| m.type_id == 5) {
+                    self.peer_window_seen = true;
+                }
                 self.last_in = v.clone();
                 v.into_iter().zip(ends.into_iter()).map(|(m, e)| (m, e.saturating_sub(start))).collect()
             }
             Err(_) => {
                 self.in_tap_failed = true;
+                self.peer_window_seen = true;
                 Vec::new()
             }
         }
+    }
+
+    /// Nothing is buffered in the input tap: the bytes delivered so far end on a message boundary.
+    pub fn in_tap_clean(&self) -> bool {
+        !self.in_tap_failed && self.in_tap.pending_bytes() == 0 && self.in_tap.messages_in_progress() == 0
     }
 
     /// AckModel step for one successful handle_input call.
